@@ -397,6 +397,8 @@ var c19Directed = []string{
 	// arguments that cannot convert to a parameter's collection type
 	`takes_map({(s) = []})`, `takes_map(okey)`, `takes_map(okeys)`, `takes_map({a = okey})`, `takes_list(mp)`, `takes_list(okey)`, `takes_list({(s) = 1})`, `takes_list([okeys])`,
 	`takes_obj(okey)`, `takes_obj({a = {(s) = 1}})`, `takes_obj(onest)`, `takes_map(lst)`, `takes_list(obj)`, `takes_map({(n) = [n]})`,
+	// the same through an expanded argument list: the collection is marked as a whole
+	`takes_map(lok...)`, `takes_list(lok...)`, `takes_obj(lok...)`, `takes_map([okey]...)`, `takes_map(tok...)`, `join("-", lok...)`,
 	`"${s}" + 1`, `"${n}x" * 2`, `("${n}") + s`, `upper("${n}") - 1`, `{(upper(s)) = 1}["x"]`, `{"${s}" = 1}.nope`,
 }
 
@@ -415,6 +417,11 @@ func c19DirectedCase(c *core.Case, src string) {
 		dd, dv := newCanaryNum(r)
 		cs.nums = append(cs.nums, dd)
 		sc.Set("dn", cty.TupleVal([]cty.Value{dv, dv}).Mark(c19Mark))
+		if len(cs.keys) == 3 {
+			// collections marked as a whole whose only element is an object with a secret attribute name
+			sc.Set("lok", cty.ListVal([]cty.Value{cty.ObjectVal(map[string]cty.Value{cs.keys[0]: cty.ListVal([]cty.Value{cty.StringVal("v")})})}).Mark(c19Mark))
+			sc.Set("tok", cty.TupleVal([]cty.Value{cty.ObjectVal(map[string]cty.Value{cs.keys[1]: cty.EmptyTupleVal})}).Mark(c19Mark))
+		}
 	}
 	tpl := src
 	if len(cs.keys) == 3 && len(cs.strs) > 0 {
